@@ -75,6 +75,11 @@ def prod(
     """
     a = numpoly.aspolynomial(a)
     assert out is None
+    initial = kwargs.pop("initial", None)
+    if initial is not None:
+        return numpoly.multiply(
+            prod(a, axis=axis, dtype=dtype, keepdims=keepdims, **kwargs), initial
+        )
     if isinstance(axis, numpy.integer):
         axis = int(axis)
     # multiply in the requested type, or else the one numpy.prod accumulates in
